@@ -83,6 +83,16 @@ class StdModels(object):
             if v[0] in ("int", "char"):
                 return [(st, v)]
             return [(st, pure("clone", (v,)))]
+        # `opt?`: Option<T> -> ControlFlow<Option<Infallible>, T>, and the early return of None
+        if name.endswith("as std::ops::Try>::branch") and c.args and c.args[0][0] == "adt" and c.args[0][1] == OPT:
+            v = c.args[0]
+            if v[2] == "None":
+                return [(st, ("adt", "std::ops::ControlFlow", "Break", 1, (("0", NONE),)))]
+            if v[2] == "Some":
+                return [(st, ("adt", "std::ops::ControlFlow", "Continue", 0, (("0", v[4][0][1]),)))]
+        if name.endswith("::from_residual") and "std::ops::FromResidual" in name and c.args and \
+                c.args[0] == NONE:
+            return [(st, NONE)]
         if name == "std::option::Option::take":
             a = c.args[0]
             if a[0] == "ref":
